@@ -52,6 +52,17 @@
   pointwise; observed = concatenation of per-realm outputs
   meta-API answers are functions of the caller's realm only    C11_meta_confined (true by typing:
                                                                `Realm.metaProc` takes one `Realm`)
+  HISTORIES: along two whole runs whose operations addressed   C11_run_noninterference
+  to A coincide, A makes the same things observable and ends    (+ C11_run_part_is_filter: the part
+  in the same state, whatever the other realms do in between    observed "on behalf of A" is the
+  (their sessions' operations, joins, AddRealm, RemoveRealm,    router's observation filtered to A's
+  creation from the template)                                   sessions; C11_create_modulo_pubbase,
+                                                               C11_pubbase_shared_witness: why the
+                                                               creation of A itself is excluded)
+  sessions of a removed realm are inert: while the name is      C11_removed_sessions_inert,
+  absent their operations do nothing; after a namesake has      C11_confined_to
+  been added they observe nothing and cannot touch it
+  reachable routers include those built with a realm template   Router.Reachable.init (t), example
 
   Coinciding URIs, request ids, subscription and registration ids: nothing in the statements
   restricts the state of the other realms, so the theorems hold in particular when realm B holds
@@ -70,6 +81,7 @@
   inventory of package-level variables (gen G6(e)).
 -/
 import Nexus.L2.Proofs.RouterFrame
+import Nexus.L2.Proofs.WpDRouterRun
 
 namespace Nexus.C11
 open Nexus.L2 Nexus.L2.Router Nexus.L2.Realm
@@ -248,12 +260,33 @@ theorem C11_join_observed (rt : Router) (hi : rt.Inv) (A : String) (k : SessKey)
 theorem C11_inv_step (rt : Router) (hi : rt.Inv) (rop : ROp) (hw : rop.wf) : (rt.step rop).2.Inv :=
   hi.step rop hw
 
-/-- … hence it holds in every state reachable from `Router.create cfgs`. -/
+/-- … hence it holds in every state reachable from the initial router: the realms of
+    `Router.create cfgs` together with ANY realm template (`Router.Reachable.init t`; the template
+    is fixed at construction, `Router.step_template`).  Routers with a realm template — the ones
+    the driver and the harness run (`{ r' with template := tmpl }`) — are covered. -/
 theorem C11_inv_reachable (rt : Router) (h : Router.Reachable rt) : rt.Inv := h.inv
 
 -- non-vacuity: the empty configuration gives a reachable router; so do all operations on it
-example : Router.Reachable {} := .init (cfgs := []) rfl
-example : Router.Reachable ((({} : Router).step (.addRealm {})).2) := .step _ (.init (cfgs := []) rfl) trivial
+example : Router.Reachable {} := .init (cfgs := []) none rfl
+example : Router.Reachable ((({} : Router).step (.addRealm {})).2) :=
+  .step _ (.init (cfgs := []) none rfl) trivial
+-- a router built by `Router.create` alone (no template) is reachable
+example (cfgs : List Config) (rt : Router) (h : Router.create cfgs = some rt) : Router.Reachable rt := .init0 h
+
+/-- the router with no static realm and the realm template `t` -/
+def templateRouter (t : Config) : Router := { template := some t }
+
+-- non-vacuity for TEMPLATE routers: the router whose only configuration is a realm template is
+-- reachable, it keeps the template, and so is the router after a session joined the not yet
+-- existing realm "x" (created on demand from the template) — hence both satisfy the invariant.
+example (t : Config) : Router.Reachable (templateRouter t) := .init (cfgs := []) (some t) rfl
+example (t : Config) : (templateRouter t).template = some t := rfl
+example (t : Config) : Router.Reachable ((templateRouter t).step (.join "x" 1 false [] {} 8)).2 :=
+  .step _ (.init (cfgs := []) (some t) rfl) trivial
+example (t : Config) : ((templateRouter t).step (.join "x" 1 false [] {} 8)).2.Inv :=
+  C11_inv_reachable _ (.step _ (.init (cfgs := []) (some t) rfl) trivial)
+example (t : Config) : ((templateRouter t).step (.join "x" 1 false [] {} 8)).2.template = some t :=
+  Router.step_template _ _
 
 /-- If session keys attach at most once (the real router draws a fresh random session id per
     attach), no session is held by two realms. -/
@@ -375,6 +408,213 @@ theorem C11_tick (rt : Router) (hi : rt.Inv) (ms : Nat) :
   · rw [step_tick_eq, (tickFold_obs ms rt.realms _).2]; rfl
   · intro p hp
     exact ((hi.conf p hp).step (.tick ms) (fun _ _ _ _ _ e => by cases e)).2
+
+
+/-! ## Sessions of a removed realm -/
+
+/-- GENERAL FORM of confinement, for an arbitrary set `P` of sessions: if the realm the router
+    holds under the name `A` is confined to `P` (its clients, queues and closed peers are in `P`),
+    then whatever a session dispatched to `A` does — ALSO a session that is not in `P`, e.g. one that
+    had joined a removed realm of the same name — everything observed concerns sessions in `P`
+    only, and the realm stays confined to `P`.  (`C11_frame_observed` is the instance
+    `P := rt.joined A`; here `P` can be finer than "ever joined a realm named `A`".) -/
+theorem C11_confined_to (rt : Router) (A : String) (P : SessKey → Prop) (r : Realm) (hr : rt.realm? A = some r)
+    (hP : Realm.Conf P r) (k : SessKey) (hk : rt.realmOf k = some A) (op : Realm.Op) (hop : op.isJoin = false) :
+    (∀ q ∈ (rt.step (.sess k op)).1.out, P q.1) ∧ (∀ k' ∈ (rt.step (.sess k op)).1.closed, P k') ∧
+    ∃ r', (rt.step (.sess k op)).2.realm? A = some r' ∧ Realm.Conf P r' := by
+  rw [step_sess_some hk hr]
+  have hj : ∀ k l d ro c, op = .join k l d ro c → P k := by
+    intro k l d ro c e; rw [e] at hop; cases hop
+  obtain ⟨h1, h2, h3⟩ := hP.step op hj
+  exact ⟨h2, h3, _, realm?_setRealm_self _ hr, h1⟩
+
+/-- a realm confined to the empty set of sessions has no clients, no queues, no closed peers -/
+theorem conf_false_empty {r : Realm} (h : Realm.Conf (fun _ => False) r) :
+    r.clients = [] ∧ r.queues = [] ∧ r.closedPeers = [] :=
+  ⟨List.eq_nil_iff_forall_not_mem.mpr (fun c hc => h.1 c hc),
+   List.eq_nil_iff_forall_not_mem.mpr (fun q hq => h.2.1 q hq),
+   List.eq_nil_iff_forall_not_mem.mpr (fun k hk => h.2.2 k hk)⟩
+
+/-- "Removing a realm does not disturb …", seen from the sessions of the REMOVED realm `A` (audit
+    b4: `rt.joined A k` is by NAME and is never retracted, so the invariant cannot tell the
+    sessions of the old `A` from those of a later namesake).  Let `k` be dispatched to `A`.
+    (1) After `RemoveRealm A`, as long as no realm named `A` exists, every operation of `k` leaves
+        the router unchanged and nothing is observed.
+    (2) After a later `AddRealm cfg` with `cfg.uri = A` (accepted or refused), every operation of
+        `k` (msg, drop, stall, resume) still makes nothing observable, and the namesake — if it
+        exists — still has no client, no queue and no closed peer afterwards: the old session can
+        neither receive from nor attach itself to the new realm.
+    Sessions that join the namesake later are covered by `C11_confined_to` with
+    `P :=` "joined since". -/
+theorem C11_removed_sessions_inert (rt : Router) (A : String) (k : SessKey) (hk : rt.realmOf k = some A) :
+    (∀ op, (((rt.step (.removeRealm A)).2).step (.sess k op)).2 = (rt.step (.removeRealm A)).2 ∧
+           (((rt.step (.removeRealm A)).2).step (.sess k op)).1.out = [] ∧
+           (((rt.step (.removeRealm A)).2).step (.sess k op)).1.closed = []) ∧
+    (∀ cfg : Config, cfg.uri = A → ∀ op : Realm.Op, op.isJoin = false →
+      ((((rt.step (.removeRealm A)).2).step (.addRealm cfg)).2.step (.sess k op)).1.out = [] ∧
+      ((((rt.step (.removeRealm A)).2).step (.addRealm cfg)).2.step (.sess k op)).1.closed = [] ∧
+      ∀ r', ((((rt.step (.removeRealm A)).2).step (.addRealm cfg)).2.step (.sess k op)).2.realm? A = some r' →
+        r'.clients = [] ∧ r'.queues = [] ∧ r'.closedPeers = []) := by
+  -- the router after the removal: same sessions, no realm named A
+  have hs1 : (rt.step (.removeRealm A)).2.sessRealm = rt.sessRealm := ((C11_remove_add rt).1 A).2.1
+  have hk1 : (rt.step (.removeRealm A)).2.realmOf k = some A := by
+    unfold realmOf; rw [hs1]; exact hk
+  have hn1 : (rt.step (.removeRealm A)).2.realm? A = none := by
+    cases hr : rt.realm? A with
+    | none => rw [step_remove_none hr]; exact hr
+    | some r => rw [step_remove_some hr]; exact WpD.lookupR_filter_ne A rt.realms
+  refine ⟨fun op => C11_unknown_session _ k op (Or.inr ⟨A, hk1, hn1⟩), ?_⟩
+  intro cfg hcfg op hop
+  generalize (rt.step (.removeRealm A)).2 = rt1 at hk1 hn1
+  have hs2 : (rt1.step (.addRealm cfg)).2.sessRealm = rt1.sessRealm := ((C11_remove_add rt1).2 cfg).2.1
+  have hk2 : (rt1.step (.addRealm cfg)).2.realmOf k = some A := by
+    unfold realmOf; rw [hs2]; exact hk1
+  -- the namesake, if it exists, is a freshly created realm: confined to the empty set
+  have hfresh : ∀ r2, (rt1.step (.addRealm cfg)).2.realm? A = some r2 → Realm.Conf (fun _ => False) r2 := by
+    intro r2 h2
+    rw [step_add] at h2
+    split at h2
+    · rw [hn1] at h2; cases h2
+    · split at h2
+      · rename_i r0 hcr
+        have hany : rt1.realms.any (fun p => p.1 == A) = false := by
+          cases ha : rt1.realms.any (fun p => p.1 == A) with
+          | false => rfl
+          | true =>
+            obtain ⟨p, hp, e⟩ := List.any_eq_true.mp ha
+            exact (realm?_none hn1 p hp (by simpa using e)).elim
+        have : (WpD.lookupR (rt1.realms ++ [(cfg.uri, { r0 with pubCount := rt1.created * 1000000 })]) A) = some r2 := h2
+        rw [hcfg, WpD.lookupR_append_new _ hany] at this
+        cases this
+        have hc0 : Realm.Conf (fun _ => False) r0 := create_conf hcr _
+        exact ⟨hc0.1, hc0.2.1, hc0.2.2⟩
+      · rw [hn1] at h2; cases h2
+  cases h2 : (rt1.step (.addRealm cfg)).2.realm? A with
+  | none =>
+    obtain ⟨a, b, c⟩ := C11_unknown_session _ k op (Or.inr ⟨A, hk2, h2⟩)
+    refine ⟨b, c, fun r' hr' => ?_⟩
+    rw [a, h2] at hr'; cases hr'
+  | some r2 =>
+    obtain ⟨a, b, r', hr', hc⟩ := C11_confined_to _ A (fun _ => False) r2 h2 (hfresh r2 h2) k hk2 op hop
+    refine ⟨List.eq_nil_iff_forall_not_mem.mpr (fun q hq => a q hq),
+      List.eq_nil_iff_forall_not_mem.mpr (fun q hq => b q hq), fun r'' hr'' => ?_⟩
+    rw [hr'] at hr''; cases hr''
+    exact conf_false_empty hc
+
+-- non-vacuity: a router with realm "a" holding session 1; session 1 is dispatched to "a"
+example : ∃ rt : Router, rt.realmOf 1 = some "a" ∧ (rt.realm? "a").isSome = true :=
+  ⟨{ realms := [("a", {})], sessRealm := [(1, "a")] }, by decide, rfl⟩
+
+/-! ## Whole histories -/
+
+open Nexus.L2.Router.WpD in
+/-- RUN-LEVEL NON-INTERFERENCE.  Take two routers that agree on realm `A` (`AgreeOn`: same realm
+    under the name `A`, the same sessions dispatched to it, both open or both closed — nothing is
+    assumed about any other realm, session, the template or the counters) and two ARBITRARY
+    operation sequences whose sub-sequences addressed to `A` coincide (`projRun`: joins to `A`,
+    operations of sessions dispatched to `A`, `RemoveRealm A`, `AddRealm` named `A`, and the global
+    operations tick / rnd / Close).  Then, step by step, `A` makes the same things observable
+    (`obsRun`) and both runs end in routers that agree on `A`.  In between the two runs may do
+    entirely different things in the other realms: operations of their sessions (with coinciding
+    URIs and ids), joins, `AddRealm`, `RemoveRealm`, on-demand creation from the template.
+
+    "Observable on behalf of `A`" (`obsPart`): for an operation addressed to `A` the whole
+    observation of the router step; for the clock and `Router.Close` the contribution of realm `A`,
+    which is the router's observation filtered to `A`'s sessions (`C11_run_part_is_filter`).
+
+    Side conditions `RunOk` (each checked along its own run): session operations are not joins; a
+    key joins `A` only if the router does not know it yet (fresh session ids); realm `A` is not
+    CREATED in the run (an `AddRealm` named `A` is refused; a join to `A` does not create it from
+    the template).  The last one is the "modulo the publication-id base" caveat: the model numbers
+    the publication-id placeholders of a new realm from `created * 1000000`, and `created` counts
+    the realms of the whole router, so a realm `A` created in two runs that created different
+    numbers of OTHER realms differs in exactly `pubCount` (`C11_create_modulo_pubbase`,
+    `C11_pubbase_shared_witness`).  The real router draws publication ids from the process-wide
+    random generator; the counter is a model device. -/
+theorem C11_run_noninterference (A : String) (rt₁ rt₂ : Router) (ops₁ ops₂ : List ROp)
+    (h : AgreeOn A rt₁ rt₂) (hi₁ : rt₁.Inv) (hi₂ : rt₂.Inv)
+    (hk₁ : RunOk A rt₁ ops₁) (hk₂ : RunOk A rt₂ ops₂)
+    (hp : projRun A rt₁ ops₁ = projRun A rt₂ ops₂) :
+    obsRun A rt₁ ops₁ = obsRun A rt₂ ops₂ ∧ AgreeOn A (runR rt₁ ops₁).2 (runR rt₂ ops₂).2 :=
+  run_noninterference A ops₁ rt₁ rt₂ ops₂ h hi₁ hi₂ hk₁ hk₂ hp
+
+namespace RunExample
+open Nexus.L2.Router.WpD
+/-- realms "a" and "b", one session each -/
+def rtA : Router := { realms := [("a", {}), ("b", {})], sessRealm := [(1, "a"), (2, "b")] }
+/-- realm "a" only -/
+def rtB : Router := { realms := [("a", {})], sessRealm := [(1, "a")] }
+/-- session 2 (of "b") leaves, "b" is removed, then session 1 (of "a") leaves -/
+def opsA : List ROp := [.sess 2 (.drop 2), .removeRealm "b", .sess 1 (.drop 1)]
+def opsB : List ROp := [.sess 1 (.drop 1)]
+
+theorem proj_eq : projRun "a" rtA opsA = projRun "a" rtB opsB := by rfl
+theorem runOkA : RunOk "a" rtA opsA := ⟨rfl, trivial, rfl, trivial⟩
+theorem runOkB : RunOk "a" rtB opsB := ⟨rfl, trivial⟩
+theorem invA : rtA.Inv := ⟨by decide, fun p hp => by
+  have : p = ("a", {}) ∨ p = ("b", {}) := by simpa [rtA] using hp
+  rcases this with rfl | rfl <;>
+    exact ⟨fun _ h => (by cases h), fun _ h => (by cases h), fun _ h => (by cases h)⟩⟩
+theorem invB : rtB.Inv := ⟨by decide, fun p hp => by
+  have : p = ("a", {}) := by simpa [rtB] using hp
+  subst this
+  exact ⟨fun _ h => (by cases h), fun _ h => (by cases h), fun _ h => (by cases h)⟩⟩
+theorem agree : AgreeOn "a" rtA rtB := ⟨rfl, fun k => by
+  show lookupS [(1, "a"), (2, "b")] k = some "a" ↔ lookupS [(1, "a")] k = some "a"
+  unfold lookupS
+  simp only [List.find?_cons, List.find?_nil]
+  by_cases h1 : ((1:SessKey) == k) = true
+  · simp [h1]
+  · by_cases h2 : ((2:SessKey) == k) = true
+    · simp [h1, h2]
+    · simp [h1, h2], rfl⟩
+
+-- non-vacuity of `C11_run_noninterference`: the hypotheses hold for two different routers and
+-- two different runs (the first one works in and then removes realm "b" before session 1 acts)
+example : obsRun "a" rtA opsA = obsRun "a" rtB opsB ∧ AgreeOn "a" (runR rtA opsA).2 (runR rtB opsB).2 :=
+  C11_run_noninterference "a" rtA rtB opsA opsB agree invA invB runOkA runOkB proj_eq
+end RunExample
+
+open Nexus.L2.Router.WpD in
+/-- What `C11_run_noninterference` calls "observed on behalf of `A`" at the two operations that
+    address every realm at once — the clock and `Router.Close` — is the router's observation of
+    that step filtered to the sessions dispatched to `A` (queues and closed peers), in every router
+    satisfying the invariant whose session keys attached at most once
+    (`C11_attach_once_step`). -/
+theorem C11_run_part_is_filter (rt : Router) (hi : rt.Inv) (hn : (rt.sessRealm.map (·.1)).Nodup) (A : String) :
+    (∀ ms, (obsPart A rt (.tick ms)).out = (rt.step (.tick ms)).1.out.filter (fun q => rt.realmOf q.1 == some A) ∧
+           (obsPart A rt (.tick ms)).closed = (rt.step (.tick ms)).1.closed.filter (fun k => rt.realmOf k == some A)) ∧
+    ((obsPart A rt .close).out = (rt.step .close).1.out.filter (fun q => rt.realmOf q.1 == some A) ∧
+     (obsPart A rt .close).closed = (rt.step .close).1.closed.filter (fun k => rt.realmOf k == some A)) :=
+  ⟨fun ms => obsPart_tick_filter rt hi hn A ms, obsPart_close_filter rt hi hn A⟩
+
+example : RunExample.rtA.Inv ∧ (RunExample.rtA.sessRealm.map (·.1)).Nodup := ⟨RunExample.invA, by decide⟩
+
+/-- The caveat of `C11_run_noninterference`, positively: an accepted `AddRealm cfg` yields, in
+    whatever router, the realm `Realm.create cfg` with `pubCount` set to the router's
+    `created * 1000000` — so the realm created by the same operation in two routers is the same up
+    to that one field. -/
+theorem C11_create_modulo_pubbase (rt : Router) (cfg : Config) (r : Realm) (hcr : Realm.create cfg = some r)
+    (hacc : (rt.closed || rt.realms.any (fun p => p.1 == cfg.uri)) = false) :
+    (rt.step (.addRealm cfg)).2.realm? cfg.uri = some { r with pubCount := rt.created * 1000000 } :=
+  WpD.create_modulo_pubbase rt cfg r hcr hacc
+
+example : (({} : Router).closed || ({} : Router).realms.any (fun p => p.1 == "a")) = false := rfl
+
+open Nexus.L2.Router.WpD in
+/-- … and negatively (audit b2): `created` is router state shared by all realms in the MODEL.
+    Adding a realm `B` first changes the publication-id base of the realm `A` added afterwards
+    (1000000 instead of 0), although the two runs have the same projection to `A`.  Hence the
+    creation of the observed realm is excluded from `C11_run_noninterference`.  Not a finding
+    about nexus: the real publication ids are random; this is about the model's placeholders. -/
+theorem C11_pubbase_shared_witness (cfgA cfgB : Config) (rA rB : Realm) (hA : Realm.create cfgA = some rA)
+    (hB : Realm.create cfgB = some rB) (hne : cfgB.uri ≠ cfgA.uri) :
+    (runR {} [.addRealm cfgB, .addRealm cfgA]).2.realm? cfgA.uri = some { rA with pubCount := 1000000 } ∧
+    (runR {} [.addRealm cfgA]).2.realm? cfgA.uri = some { rA with pubCount := 0 } ∧
+    projRun cfgA.uri {} [.addRealm cfgB, .addRealm cfgA] = projRun cfgA.uri {} [.addRealm cfgA] := by
+  obtain ⟨a, b⟩ := pubbase_shared cfgA cfgB rA rB hA hB hne
+  refine ⟨a, b, ?_⟩
+  simp [projRun, concerns, hne]
 
 /-! ## Meta API -/
 
